@@ -28,7 +28,7 @@ CUR = {'ctx': None, 'case': None}
 
 
 def shards(tier, seed):
-    per = 180 if tier == 'quick' else 3500
+    per = 180 if tier == 'quick' else 15000
     budget = 45 if tier == 'quick' else 540
     return [{'kind': 'random', 'count': per, 'budget_s': budget} for _ in range(16)]
 
